@@ -1,7 +1,8 @@
 (* C41 — property theorems only.  Each is closed by `exact <lemma>` and followed by Print Assumptions. *)
 From Coq Require Import List NArith ZArith Bool.
 From Verif.Common Require Import Packet Ipt.
-From Verif.C41 Require Import Model Spec ProofsRule.
+From Coq Require Import Permutation.
+From Verif.C41 Require Import Model Spec ProofsRule ProofsSet ProofsOracle.
 Import ListNotations.
 Open Scope N_scope.
 
@@ -45,3 +46,94 @@ Example c41_rule_example :
   /\ rule_offloads (rep_env false) (rep_packet CtEstablished 101 200 V4) offload_rule = false
   /\ rule_offloads (rep_env false) (rep_packet CtNew 200 200 V4) offload_rule = false.
 Proof. vm_compute. repeat split; reflexivity. Qed.
+
+(* ------------------------------------------------------------------ the exclusion set *)
+(* `exec ver init None h st dp` (ProofsSet.v): the manager, started as newFlowtableExclusionManager leaves it and with no
+   set in the dataplane, processes the history h (endpoint updates/removes of both kinds, nil endpoints, unrelated
+   messages, CompleteDeferredWork at arbitrary points) and ends in state st with dp = the member list of the latest
+   AddOrReplaceIPSet call; EVERY CompleteDeferredWork ranges over wepIPs and hepIPs in an ARBITRARY order
+   (any permutations ow, oh of the maps).
+
+   After ANY such history (addresses single, as the validator guarantees):
+   (1) whatever order the next CompleteDeferredWork uses, the member list it would hand to the IP set contains exactly
+       the addresses a for which some workload endpoint with DSCP marking or a connection/packet rate limit, or some
+       host endpoint with DSCP marking, currently (last update wins; removed = gone) has a as an address of this IP version;
+   (2) whenever the manager is not dirty, the set already written to the dataplane is exactly that set. *)
+Theorem c41_set_exact : forall ver h st dp,
+  wf_history ver h = true -> exec ver init None h st dp ->
+  (forall ow oh, Permutation ow (s_wep st) -> Permutation oh (s_hep st) ->
+     forall a, In a (members_in ow oh) <-> excluded ver h a)
+  /\ (s_dirty st = false -> exists ms, dp = Some ms /\ forall a, In a ms <-> excluded ver h a).
+Proof. exact set_exact. Qed.
+Print Assumptions c41_set_exact.
+
+(* The dataplane loop ends every batch with CompleteDeferredWork: after it, the set in the dataplane exists and is exact. *)
+Theorem c41_set_exact_after_flush : forall ver h st dp,
+  wf_history ver h = true -> exec ver init None (h ++ [Flush]) st dp ->
+  exists ms, dp = Some ms /\ forall a, In a ms <-> excluded ver h a.
+Proof. exact set_exact_after_flush. Qed.
+Print Assumptions c41_set_exact_after_flush.
+
+(* An address stays in the set while ANY endpoint that needs the hooks has it, whatever happened to other endpoints
+   that shared it (corollary of exactness, spelled out). *)
+Theorem c41_shared_address_stays : forall ver h st dp id w a m,
+  wf_history ver h = true -> exec ver init None (h ++ [Flush]) st dp ->
+  cur_wep id None h = Some w -> wep_needs w = true -> In (a, m) (wep_nets ver w) ->
+  exists ms, dp = Some ms /\ In a ms.
+Proof. exact shared_address_stays. Qed.
+Print Assumptions c41_shared_address_stays.
+
+(* The executable run used in the correspondence check is one of these executions. *)
+Theorem c41_run_is_an_execution : forall ver ops st dp,
+  exists dp', exec ver st dp ops (state_after ver st ops) dp'.
+Proof. exact exec_deterministic. Qed.
+Print Assumptions c41_run_is_an_execution.
+
+(* The specification oracle of Spec.v (the one evaluated on the implementation's observed AddOrReplaceIPSet calls)
+   accepts every run of the model: at every CompleteDeferredWork of every history the set the dataplane then holds has
+   exactly the support `excluded_list` computes from the history alone. *)
+Theorem c41_model_meets_spec : forall ver h, ok_trace ver h (run ver init h) = true.
+Proof. exact model_meets_spec. Qed.
+Print Assumptions c41_model_meets_spec.
+
+Theorem c41_model_case_ok : forall ver h nft enabled,
+  snd (check_case {| c_ver := ver; c_ops := h; c_outs := run ver init h; c_nft := nft; c_offload := enabled;
+                     c_rules := static_offload_rules nft enabled |}) = true.
+Proof. exact model_case_ok. Qed.
+Print Assumptions c41_model_case_ok.
+
+(* Non-vacuity: two endpoints share 10.65.0.1; it stays while either needs it; bandwidth-only QoS does not count. *)
+Definition ex_conn : qos := QC 0 0 0 0 0 0 10 0 0 0 0 0 0 0.
+Definition ex_bw : qos := QC 1000 1000 0 0 0 0 0 0 0 0 0 0 0 0.
+Definition ex_history : list op :=
+  [ WepUpdate 0 (Some (WEP [(172032001, Some 32)] [] 1%nat None));            (* DSCP *)
+    WepUpdate 1 (Some (WEP [(172032001, Some 32); (172032002, Some 32)] [] 0%nat (Some ex_conn)));
+    HepUpdate 0 (HEP [(3232237316, None)] [] 1%nat);
+    Flush;
+    WepRemove 0; Flush;                                                         (* .1 stays: endpoint 1 still has it *)
+    WepUpdate 1 (Some (WEP [(172032001, Some 32); (172032002, Some 32)] [] 0%nat (Some ex_bw))); Flush;   (* limit dropped *)
+    Flush ].
+Example c41_example_run :
+  run V4 init ex_history
+  = [Some [172032001; 172032001; 172032002; 3232237316]; Some [172032001; 172032002; 3232237316]; Some [3232237316]; None]
+  /\ wf_history V4 ex_history = true
+  /\ ok_trace V4 ex_history (run V4 init ex_history) = true.
+Proof. vm_compute. repeat split; reflexivity. Qed.
+
+(* The oracle is not vacuous: forgetting to drop the address, or skipping a write, is rejected. *)
+Example c41_example_oracle_rejects :
+  ok_trace V4 ex_history [Some [172032001; 172032002; 3232237316]; Some [172032001; 172032002; 3232237316];
+                          Some [172032001; 3232237316]; None] = false
+  /\ ok_trace V4 ex_history [Some [172032001; 172032002; 3232237316]; Some [172032001; 172032002; 3232237316]; None; None] = false.
+Proof. vm_compute. split; reflexivity. Qed.
+
+(* Why the single-address hypothesis is there (outside what Felix can receive): for a /24 net the manager keeps only
+   the address written before the slash. *)
+Example c41_domain_needed :
+  let h := [WepUpdate 0 (Some (WEP [(167772160, Some 24)] [] 1%nat None))] in
+  wf_history V4 h = false /\ excluded V4 h 167772161 /\ run V4 init (h ++ [Flush]) = [Some [167772160]].
+Proof.
+  cbv zeta. split; [reflexivity|]. split; [|reflexivity].
+  left. exists 0, (WEP [(167772160, Some 24)] [] 1%nat None), (167772160, Some 24).
+  repeat split; try reflexivity. left. reflexivity.
+Qed.
